@@ -1970,6 +1970,17 @@ class UserSpaceImpl(*_user_space_impl_base):
         self.own_refs[name].on_delete()
         self.own_refs.del_item(name)
 
+    def set_allow_none(self, value):
+        self.allow_none = value
+        self.clear_on_allow_none()
+
+    def clear_on_allow_none(self):
+        """Clear the values computed under another allow_none in self's tree"""
+        self.clear_all_cells(clear_input=False, del_items=True)
+        self.clear_subs_rootitems()     # The dynamic copies of self
+        for space in self.named_spaces.values():
+            space.clear_on_allow_none()
+
     def clear_refs_referrers(self):
         """Clear the values read through the references in self's tree"""
         for ref in self.own_refs.values():
